@@ -285,7 +285,7 @@ class Seam:
         elif kind == "uniform":
             ep = pol.get("endpoint", 0.0)
             if ep and self.r.random() < ep:
-                tok = self.r.choice(["lo", "lo+", "hi-", "hi"])
+                tok = self.r.choice(pol.get("endpoint_tags") or ["lo", "lo+", "hi-", "hi"])
             else:
                 tok = self._u()
         else:
